@@ -60,6 +60,7 @@ type Contract struct {
 	Traces   []*TraceDecl
 	Mode     string
 	OnlyLayers map[string]bool
+	SkipKinds  map[string]bool
 	File     string
 	ParamNames []string // for extern/iface contracts: declared parameter names
 	ResultNames []string
@@ -439,6 +440,13 @@ func (db *ContractDB) LoadContractFile(file, pkgPath string) {
 				cur.Inline = true
 			case "mode":
 				cur.Mode = strings.TrimSpace(r)
+			case "skip":
+				if cur.SkipKinds == nil {
+					cur.SkipKinds = map[string]bool{}
+				}
+				for _, l := range strings.Fields(r) {
+					cur.SkipKinds[l] = true
+				}
 			case "layers":
 				cur.OnlyLayers = map[string]bool{}
 				for _, l := range strings.Fields(r) {
